@@ -146,11 +146,22 @@ func (w *VerifWriters) Feed(buf []byte, kf bool) []string {
 	marker := buf[1]&0x80 != 0
 	_, index := w.Up.cache.Store(seqno, ts, kf, marker, buf)
 	w.pool.write(seqno, index, 0, true, marker)
+	// every writer serves its tracks in order and the barrier is the last of the tracks compared here: once the
+	// barrier has seen THIS packet, the tracks before it have been written.  (Tokens of other packets — none are
+	// expected — are skipped rather than trusted: a token taken for the wrong packet would make this op read the
+	// sinks too early, which shows as an unreproducible `none`.)
 	for _, b := range w.barriers {
-		select {
-		case <-b.ch:
-		case <-time.After(3 * time.Second):
-			return []string{"barrier-timeout"}
+		deadline := time.After(5 * time.Second)
+	wait:
+		for {
+			select {
+			case s := <-b.ch:
+				if s == seqno {
+					break wait
+				}
+			case <-deadline:
+				return []string{"barrier-timeout"}
+			}
 		}
 	}
 	// keyframe requests go to the shared publisher track; they are not attributed to a receiver here
